@@ -46,6 +46,9 @@ type srvLogCore struct {
 	info     map[string]int
 	rejected []string
 	approved []approved
+	reasons  map[string]int // why peers were disconnected
+	// undecodable: a peer was dropped because a message it sent could not be decompressed (the transport never alters bytes)
+	undecodable []string
 }
 
 func (c *srvLogCore) Enabled(l zapcore.Level) bool {
@@ -61,10 +64,9 @@ func (c *srvLogCore) Check(e zapcore.Entry, ce *zapcore.CheckedEntry) *zapcore.C
 func (c *srvLogCore) Sync() error { return nil }
 
 var srvInfoWatched = map[string]string{
-	"peer disconnected": "peer_disconnected",
 	"node reached synchronized state, starting services": "services_started",
-	"started protocol":              "handshake_completed",
-	"new peer connected":            "peer_connected",
+	"started protocol":               "handshake_completed",
+	"new peer connected":             "peer_connected",
 	"not all headers were processed": "headers_truncated",
 	"try to sync state for the latest state synchronisation point": "statesync_initialised",
 	"headers are in sync":     "statesync_headers_in_sync",
@@ -73,6 +75,21 @@ var srvInfoWatched = map[string]string{
 	"changing dbft view":      "view_changed",
 	"sending RecoveryMessage": "recovery_message_sent",
 	"sending RecoveryRequest": "recovery_request_sent",
+}
+
+// reasonClass strips what varies (numbers, hashes) from a disconnect reason.
+func reasonClass(r string) string {
+	var b strings.Builder
+	for _, c := range r {
+		if c >= '0' && c <= '9' {
+			continue
+		}
+		b.WriteRune(c)
+		if b.Len() >= 70 {
+			break
+		}
+	}
+	return b.String()
 }
 
 func fieldMap(fs []zapcore.Field) map[string]any {
@@ -97,6 +114,16 @@ func (c *srvLogCore) Write(e zapcore.Entry, fs []zapcore.Field) error {
 		c.mu.Lock()
 		c.approved = append(c.approved, approved{height: h, hash: fmt.Sprint(m["hash"])})
 		c.mu.Unlock()
+	case e.Message == "peer disconnected":
+		m := fieldMap(fs)
+		reason := fmt.Sprint(m["error"])
+		c.mu.Lock()
+		c.info["peer_disconnected"]++
+		c.reasons[reasonClass(reason)]++
+		if strings.Contains(reason, "lz4: ") || strings.Contains(reason, "compressed payload") || strings.Contains(reason, "decompressed payload") {
+			c.undecodable = append(c.undecodable, fmt.Sprintf("peer %v: %s", m["addr"], reason))
+		}
+		c.mu.Unlock()
 	default:
 		if p, ok := srvInfoWatched[e.Message]; ok {
 			c.mu.Lock()
@@ -119,8 +146,8 @@ type snode struct {
 	// guarded by srvSim.mu
 	up       bool
 	stopping bool
-	gen int
-	srv *network.Server
+	gen      int
+	srv      *network.Server
 
 	svc consensus.Service
 	mod *statesync.Module
@@ -136,6 +163,7 @@ type snode struct {
 	caughtUp  time.Duration // when the node first was within 2 blocks of the top after its last start (0: not yet)
 	seenRej   int
 	seenAppr  int
+	seenUndec int
 	ownBlocks map[uint32]string
 	h20       uint32 // height 20 block times after the start of the run
 	has20     bool
@@ -177,7 +205,7 @@ func (s *srvSim) newSrvNode(idx, kind int, l Local) *snode {
 		sim.Harnessf("cannot create node N%d: %v", idx, err)
 	}
 	v := &snode{idx: idx, kind: kind, n: n, local: l, ownBlocks: map[uint32]string{}}
-	v.lc = &srvLogCore{inner: n.logs, info: map[string]int{}}
+	v.lc = &srvLogCore{inner: n.logs, info: map[string]int{}, reasons: map[string]int{}}
 	return v
 }
 
@@ -230,6 +258,7 @@ func (s *srvSim) serverConfig(v *snode) network.ServerConfig {
 		// Go scheduler, not by the plan
 		BroadcastFactor:    100,
 		ExtensiblePoolSize: 20,
+		DisableCompression: sp.NoCompress == v.idx+1,
 	}
 }
 
